@@ -47,15 +47,29 @@ Inductive lobs :=
 | OAsk (qn : N) (owners : list N) (ip : N) (sync : bool) (bg : option N)
 | OAge (present : bool).
 
+(** Steps of a run of the chain [front; prefer_ipv4/6 (optional); cache; upstream].
+    Questions are (name id, type, class). [PAsk q pre]: a query for [q]; when
+    [pre = Some q'] a plugin in front has already put a response to the question
+    [q'] (one record of q') into the context. [PAge q]: the entry under key(q) is
+    made 400 s older. The upstream (asked only when the context holds no
+    response) answers [q] with one record of q's name and type — except for the
+    type the selector prefers, for which it has no data (empty answer + SOA). *)
+Inductive pop := PAsk (q : N * N * N) (pre : option (N * N * N)) | PAge (q : N * N * N).
+
+(** [POAsk rq recs]: question of the reply and (owner, rrtype) of its answer
+    records. [POAge present]. *)
+Inductive pobs := POAsk (rq : N * N * N) (recs : list (N * N)) | POAge (present : bool).
+
 Inductive case :=
   (** VerifGetMsgKey on two messages; [eq]: the two Go strings are equal *)
 | CKeys (q1 q2 : qd) (k1 k2 : kobs) (eq : bool)
   (** fresh Cache, Exec q1 (good answer), Exec q2: [hit12] = the second execution
       was answered from the cache; [hit21] likewise in the other order *)
 | CPair (q1 q2 : qd) (hit12 hit21 : bool)
-  (** a history on one Cache; per step [Some i] when the step was served the
-      answer created in step [i], [None] otherwise *)
-| CHist (ops : list hop) (obs : list (option N))
+  (** a history on one Cache; per step [Some (i, name_ok, t, c)] when the step was
+      served the answer created in step [i], whose question section has the
+      query's name ([name_ok]), type [t] and class [c]; [None] otherwise *)
+| CHist (ops : list hop) (obs : list (option (N * bool * N * N)))
   (** query_context.NewContext on a client message: the additional section of
       [Q()] afterwards, and the key of [Q()] *)
 | CCtx (client : qd) (seen : list extra_rr) (k : kobs)
@@ -69,7 +83,14 @@ Inductive case :=
       Per step what was observed, and at the end what the store holds under the
       key of each name 0..m-1 (question name, owner names of the answer records). *)
 | CLazy (lazy : bool) (rules : list (N * N)) (ops : list lop) (obs : list lobs)
-        (held : list (option (N * list N))).
+        (held : list (option (N * list N)))
+  (** the chain [front; selector; cache; upstream] on one Cache: [sel] = 0 (no
+      selector), 1 (prefer_ipv4) or 28 (prefer_ipv6); names 0..m-1. At the end, for
+      every question (n, t, c), n < m, t in 1, 28, 16, c in 1, 3 (in that order)
+      under whose key the store holds something: that question, the question
+      section of what is held and (owner, rrtype) of its answer records. *)
+| CChain (lazy : bool) (sel m : N) (ops : list pop) (obs : list pobs)
+         (held : list ((N * N * N) * (N * N * N) * list (N * N))).
 
 (** * Model side *)
 
@@ -104,8 +125,28 @@ Fixpoint hops_ops (i : N) (l : list hop) : list op :=
   | HFlush :: t => Flush :: hops_ops (i + 1) t
   end.
 
-Definition outcome_obs (o : outcome) : option N :=
-  match o with Hit v => Some (r_id v) | _ => None end.
+Definition hobs_of (q : qmsg) (o : outcome) : option (N * bool * N * N) :=
+  match o with
+  | Hit v =>
+    match r_question v, q_question q with
+    | [a], b :: _ => Some (r_id v, list_eqb N.eqb (qname a) (qname b), qtype a, qclass a)
+    | _, _ => Some (r_id v, false, 0, 0)
+    end
+  | _ => None
+  end.
+
+Fixpoint hist_obs (ops : list hop) (outs : list outcome) : list (option (N * bool * N * N)) :=
+  match ops, outs with
+  | HQ d _ _ :: ops', o :: outs' => hobs_of (qd_msg d) o :: hist_obs ops' outs'
+  | HFlush :: ops', _ :: outs' => None :: hist_obs ops' outs'
+  | _, _ => []
+  end.
+
+Definition hobs_eqb (a b : option (N * bool * N * N)) : bool :=
+  option_eqb (fun x y =>
+    match x, y with
+    | (i1, n1, t1, c1), (i2, n2, t2, c2) => (i1 =? i2) && Bool.eqb n1 n2 && (t1 =? t2) && (c1 =? c2)
+    end) a b.
 
 Definition optN_eqb := option_eqb N.eqb.
 
@@ -205,6 +246,116 @@ Definition lobs_eqb (a b : lobs) : bool :=
 Definition held_eqb (a b : option (N * list N)) : bool :=
   option_eqb (fun x y => (fst x =? fst y) && list_eqb N.eqb (snd x) (snd y)) a b.
 
+(** ** a response already in the context, and dual_selector, in front of the cache *)
+
+Definition pq_msg (q : N * N * N) : qmsg :=
+  match q with (n, t, c) => mkq false 0 false false [mkqu (lname n) t c] [XOpt 0] end.
+Definition pkey (q : N * N * N) : bytes := get_msg_key (pq_msg q).
+(** a response to the question q, with one record of q's name and type ([has]) or none *)
+Definition presp (has : bool) (q : N * N * N) : resp :=
+  match q with (n, t, c) => mkr [mkqu (lname n) t c] true (if has then 1 else 0) end.
+Definition pupstream (sel : N) (q : N * N * N) : resp :=
+  match q with (n, t, c) => presp (negb (t =? sel)) q end.
+
+Definition resp_q (v : resp) : N * N * N :=
+  match r_question v with [qu] => (lid (qname qu), qtype qu, qclass qu) | _ => (99, 0, 0) end.
+Definition resp_recs (v : resp) : list (N * N) :=
+  match r_question v with
+  | [qu] => if r_id v =? 1 then [(lid (qname qu), qtype qu)] else []
+  | _ => []
+  end.
+
+Definition key_in (k : bytes) (l : list bytes) : bool := existsb (list_eqb N.eqb k) l.
+Definition key_del (k : bytes) (l : list bytes) : list bytes :=
+  filter (fun x => negb (list_eqb N.eqb k x)) l.
+
+(** Cache.Exec entered with the response [pre] in the context, the rest of the
+    chain being the upstream: in terms of the model's [step]. What the rest of
+    the chain leaves is [pre] if there is one, else the upstream's answer; on a hit
+    the cached response replaces [pre]; the background update of a stale (lazy)
+    hit works on a copy taken before that, i.e. one that still holds [pre]. *)
+Definition cache_exec (lazy : bool) (sel : N) (st : store) (stale : list bytes)
+           (q : N * N * N) (pre : option resp) : store * list bytes * resp :=
+  let k := pkey q in
+  let is_stale := key_in k stale in
+  let down := match pre with Some r => r | None => pupstream sel q end in
+  if is_stale && negb lazy then
+    (* the expired entry is not served; it stays (expired) unless it is overwritten *)
+    if answers_question down (pq_msg q)
+    then (fst (step (fst (step st (Drop k))) (Query (pq_msg q) (Some down) None)), key_del k stale, down)
+    else (st, stale, down)
+  else
+    let '(st1, out) := step st (Query (pq_msg q) (Some down) None) in
+    match out with
+    | Hit v =>
+      if is_stale then
+        let st2 := fst (step st1 (Query (pq_msg q) (Some down) (Some down))) in
+        (st2, if answers_question down (pq_msg q) then key_del k stale else stale, v)
+      else (st1, stale, v)
+    | _ => (st1, stale, down)
+    end.
+
+(** dual_selector for a name without data of the preferred type: a query of the
+    other address type runs a reference sub-query (the context copied, response
+    included, the type rewritten to the preferred one) and the original, both
+    through the rest of the chain; the original's result is the reply. *)
+Definition chain_exec (lazy : bool) (sel : N) (st : store) (stale : list bytes)
+           (q : N * N * N) (pre : option resp) : store * list bytes * resp :=
+  match q with
+  | (n, t, c) =>
+    if negb (sel =? 0) && ((t =? 1) || (t =? 28)) && negb (t =? sel) then
+      match cache_exec lazy sel st stale (n, sel, c) pre with
+      | (st1, stale1, _) => cache_exec lazy sel st1 stale1 q pre
+      end
+    else cache_exec lazy sel st stale q pre
+  end.
+
+Fixpoint chain_run (lazy : bool) (sel : N) (st : store) (stale : list bytes)
+         (ops : list pop) : list pobs * store :=
+  match ops with
+  | [] => ([], st)
+  | PAge q :: t =>
+    let present := match lookup (pkey q) st with Some _ => true | None => false end in
+    let stale' := if present && negb (key_in (pkey q) stale) then pkey q :: stale else stale in
+    let '(o, st') := chain_run lazy sel st stale' t in
+    (POAge present :: o, st')
+  | PAsk q pre :: t =>
+    match chain_exec lazy sel st stale q (option_map (presp true) pre) with
+    | (st1, stale1, v) =>
+      let '(o, st') := chain_run lazy sel st1 stale1 t in
+      (POAsk (resp_q v) (resp_recs v) :: o, st')
+    end
+  end.
+
+(** the questions whose keys are looked at, in the driver's order *)
+Fixpoint universe_from (n : N) (m : nat) : list (N * N * N) :=
+  match m with
+  | O => []
+  | S m' => [(n, 1, 1); (n, 1, 3); (n, 28, 1); (n, 28, 3); (n, 16, 1); (n, 16, 3)] ++ universe_from (n + 1) m'
+  end.
+
+Definition held3_from (st : store) (m : N) : list ((N * N * N) * (N * N * N) * list (N * N)) :=
+  flat_map (fun q => match lookup (pkey q) st with
+                     | Some v => [(q, resp_q v, resp_recs v)]
+                     | None => []
+                     end) (universe_from 0 (N.to_nat m)).
+
+Definition q3_eqb (a b : N * N * N) : bool :=
+  match a, b with (n1, t1, c1), (n2, t2, c2) => (n1 =? n2) && (t1 =? t2) && (c1 =? c2) end.
+Definition rec_eqb (a b : N * N) : bool := (fst a =? fst b) && (snd a =? snd b).
+
+Definition pobs_eqb (a b : pobs) : bool :=
+  match a, b with
+  | POAsk q1 r1, POAsk q2 r2 => q3_eqb q1 q2 && list_eqb rec_eqb r1 r2
+  | POAge p1, POAge p2 => Bool.eqb p1 p2
+  | _, _ => false
+  end.
+
+Definition held3_eqb (a b : (N * N * N) * (N * N * N) * list (N * N)) : bool :=
+  match a, b with
+  | (k1, q1, r1), (k2, q2, r2) => q3_eqb k1 k2 && q3_eqb q1 q2 && list_eqb rec_eqb r1 r2
+  end.
+
 Definition agree (c : case) : bool :=
   match c with
   | CKeys d1 d2 k1 k2 eq =>
@@ -219,7 +370,7 @@ Definition agree (c : case) : bool :=
     Bool.eqb hit12 (match m12 with Hit _ => true | _ => false end)
     && Bool.eqb hit21 (match m21 with Hit _ => true | _ => false end)
   | CHist ops obs =>
-    list_eqb optN_eqb (map outcome_obs (snd (run (hops_ops 0 ops)))) obs
+    list_eqb hobs_eqb (hist_obs ops (snd (run (hops_ops 0 ops)))) obs
   | CCtx d seen k =>
     let q := qd_msg d in
     list_eqb (fun a b => match a, b with
@@ -235,6 +386,9 @@ Definition agree (c : case) : bool :=
   | CLazy lazy rules ops obs held =>
     let '(o, st) := lazy_run lazy rules [] [] ops in
     list_eqb lobs_eqb o obs && list_eqb held_eqb (held_from st 0 (length held)) held
+  | CChain lazy sel m ops obs held =>
+    let '(o, st) := chain_run lazy sel [] [] ops in
+    list_eqb pobs_eqb o obs && list_eqb held3_eqb (held3_from st m) held
   end.
 
 (** * The property's own oracle, written without the key *)
@@ -262,17 +416,21 @@ Definition hop_q (o : hop) : option qmsg :=
 
 (** Every served answer was created by an earlier step whose query has the same
     question and flags as the one it is served to. *)
-Fixpoint hist_sound (ops : list hop) (i : nat) (rest : list hop) (obs : list (option N)) : bool :=
+Fixpoint hist_sound (ops : list hop) (i : nat) (rest : list hop)
+         (obs : list (option (N * bool * N * N))) : bool :=
   match rest, obs with
   | [], [] => true
   | o :: rest', ob :: obs' =>
     (match ob with
      | None => true
-     | Some p =>
+     | Some (p, name_ok, t, c) =>
        (N.to_nat p <? i)%nat &&
        match hop_q o, nth_error ops (N.to_nat p) with
        | Some q, Some (HQ dp _ _) =>
          cacheable q && cacheable (qd_msg dp) && same_qf_b (qd_msg dp) q
+         (* and what is served carries the query's own question *)
+         && name_ok
+         && match q_question q with [qu] => (t =? qtype qu) && (c =? qclass qu) | _ => false end
        | _, _ => false
        end
      end) && hist_sound ops (S i) rest' obs'
@@ -304,6 +462,26 @@ Fixpoint held_sound (i : N) (held : list (option (N * list N))) : bool :=
     (qn =? i) && forallb (N.eqb i) owners && held_sound (i + 1) t
   end.
 
+(** Chain runs, on (name, type, class) only: whatever the store holds under the
+    key of a question has exactly that question and only records of that name
+    and type; a reply to a query that entered the chain without a response
+    carries the query's question and only records of its name and type. *)
+Definition answers3 (q rq : N * N * N) (recs : list (N * N)) : bool :=
+  match q, rq with
+  | (n, t, c), (n', t', c') =>
+    (n' =? n) && (t' =? t) && (c' =? c)
+    && forallb (fun r => (fst r =? n) && (snd r =? t)) recs
+  end.
+
+Fixpoint chain_sound (ops : list pop) (obs : list pobs) : bool :=
+  match ops, obs with
+  | [], [] => true
+  | PAsk q None :: ops', POAsk rq recs :: obs' => answers3 q rq recs && chain_sound ops' obs'
+  | PAsk _ (Some _) :: ops', POAsk _ _ :: obs' => chain_sound ops' obs'
+  | PAge _ :: ops', POAge _ :: obs' => chain_sound ops' obs'
+  | _, _ => false
+  end.
+
 Definition spec (c : case) : bool :=
   match c with
   | CKeys d1 d2 k1 k2 eq =>
@@ -318,6 +496,9 @@ Definition spec (c : case) : bool :=
   | CCtx d seen k => Bool.eqb (is_knone k) (negb (cacheable (qd_msg d)))
   | CSweep dim base total distinct start step cnt ck => distinct =? total
   | CLazy lazy rules ops obs held => lazy_sound rules ops obs && held_sound 0 held
+  | CChain lazy sel m ops obs held =>
+    chain_sound ops obs
+    && forallb (fun e => match e with (k, rq, recs) => answers3 k rq recs end) held
   end.
 
 (** * Non-triviality *)
@@ -358,4 +539,14 @@ Definition nontrivial (c : case) : bool :=
     lazy && negb (match rules with [] => true | _ => false end)
     && existsb (fun o => match o with OAsk _ (_ :: _ :: _) _ _ (Some _) => true | _ => false end)
                (removelast obs)
+  | CChain lazy sel m ops obs held =>
+    (* a response was already in the context when the cache was reached, or the
+       selector ran its reference sub-query; and a plain query came last *)
+    (existsb (fun o => match o with PAsk _ (Some _) => true | _ => false end) ops
+     || (negb (sel =? 0)
+         && existsb (fun o => match o with
+                              | PAsk (_, t, _) _ => ((t =? 1) || (t =? 28)) && negb (t =? sel)
+                              | _ => false
+                              end) ops))
+    && match last ops (PAge (0, 0, 0)) with PAsk _ None => true | _ => false end
   end.
